@@ -243,7 +243,7 @@ class NPoint(TemperatureProfile):
         foo = TP[::-1]
         if len(TP_smooth) == len(foo):
             foo = TP_smooth[::-1]
-        else:
+        elif len(TP_smooth) > 0:
             foo[border:-border] = TP_smooth[::-1]
 
         return foo
